@@ -108,14 +108,29 @@ impl Property for C11 {
     }
     fn assumptions(&self) -> Vec<String> {
         vec![
+            "the 'recent-source-date' phase reads the wall clock to place the source date one or two seconds in the past of a process that has used the builder before; on a correct tree the verdict does not depend on the clock".into(),
             "schedules are varied through per-process/per-instance hash seeds, TZ and cwd - the only nondeterminism sources found by reading; a dependence on the time of day without a source date is outside the statement".into(),
         ]
     }
     fn required_labels(&self, _t: Tier) -> Vec<&'static str> {
-        vec!["multi-owner", "signed", "source-date-zoned", "mtime-after-source-date", "mtime-before-source-date"]
+        vec!["recent-source-date", "multi-owner", "signed", "source-date-zoned", "mtime-after-source-date", "mtime-before-source-date"]
     }
     fn phases(&self, tier: Tier) -> Vec<Phase<C11Case>> {
-        vec![Phase::Random {
+        vec![
+            Phase::Enumerate {
+                name: "recent-source-date",
+                total: 6,
+                exhaustive: false,
+                gen: Arc::new(|i| {
+                    let mut c = BuilderConfig::minimal("recent");
+                    c.source_date = Some(1);
+                    c.source_date_secs_ago = Some(1 + (i % 2) as u32);
+                    c.signer = if i >= 3 { Some(2) } else { None };
+                    c.compression = Comp { kind: 2, level: Some(1) };
+                    Some(C11Case(c))
+                }),
+            },
+            Phase::Random {
             name: "rebuilds",
             cases: tier.pick(240, 4_000),
             strat: Arc::new(|| {
@@ -152,7 +167,32 @@ impl Property for C11 {
     }
     fn check(&self, case: &C11Case) -> Outcome {
         let mut o = Outcome::new();
-        let cfg = &case.0;
+        // "recent source date": resolve "n seconds ago" now, in a process that has been using the
+        // builder for a while (a long-lived build service), so that the source date lies between
+        // the first use of the builder in this process and the present
+        let resolved;
+        let cfg = if let Some(ago) = case.0.source_date_secs_ago {
+            static WARM: std::sync::OnceLock<std::time::Instant> = std::sync::OnceLock::new();
+            let t0 = *WARM.get_or_init(|| {
+                let _ = build_and_write(&BuilderConfig::minimal("warm-up"));
+                std::time::Instant::now()
+            });
+            let need = std::time::Duration::from_millis(ago as u64 * 1000 + 1200);
+            if t0.elapsed() < need {
+                std::thread::sleep(need - t0.elapsed());
+            }
+            let now = std::time::SystemTime::now().duration_since(std::time::UNIX_EPOCH).map(|d| d.as_secs() as u32).unwrap_or(0);
+            let mut c = case.0.clone();
+            c.source_date = Some(now.saturating_sub(ago));
+            for f in c.files.iter_mut() {
+                f.mtime = now.saturating_sub(ago + 1000 * u32::from(f.mtime % 2 == 0));
+            }
+            o.label("recent-source-date");
+            resolved = c;
+            &resolved
+        } else {
+            &case.0
+        };
         let sd = cfg.source_date.unwrap_or(0);
         let mut owners = std::collections::BTreeSet::new();
         for f in &cfg.files {
